@@ -671,9 +671,54 @@ def gen_simp_wide(rng, chk):
     return {"m": m, "ops": ops, "display": rng.random() < 0.4, "as_list": rng.random() < 0.25}
 
 
+def gen_simp_groups(rng, chk):
+    """PERM, several DISJOINT multi-mode components (2..4 modes each, spread over the circuit, now and then one
+    more that overlaps its neighbours), PERM: several groups of dependent modes compete for the slots of
+    `left_right_perm`, so that `_update_perm` has to settle for a smaller window (`_search_empty_space` recursing
+    on n - 1) and to shift blocks already placed to the right / to the left."""
+    m = rng.randint(4, chk.pick(12, 16)) if rng.random() < 0.7 else rng.randint(WIDE_MIN, chk.pick(24, 40))
+    vcount = [0]
+    mids, pos = [], 0
+    while pos + 2 <= m:
+        gap = rng.choice((0, 0, 0, 1, 1, 2, 3))
+        w = rng.choice((2, 2, 2, 3, 3, 4))
+        if pos + gap + w > m:
+            break
+        if rng.random() < 0.85:
+            r = rng.random()
+            if w == 2 and r < 0.5:
+                leaf = gens.gen_leaf(rng, 2, kinds=("BS",))
+            elif w <= 3 and r < 0.8:
+                leaf = {"t": "U", "rows": gens.qmat_json(gens.cayley_unitary(rng, w))}
+            else:
+                leaf = {"t": "Barrier", "m": w}
+            mids.append({"off": pos + gap, "leaf": leaf})
+        pos += gap + w
+    rng.shuffle(mids)
+    if m >= 3 and rng.random() < 0.2:
+        mids.insert(rng.randint(0, len(mids)), {"off": rng.randint(0, m - 2), "leaf": gens.gen_leaf(rng, 2, kinds=("BS",))})
+    if rng.random() < 0.2:
+        mids.insert(rng.randint(0, len(mids)), {"off": rng.randrange(m), "leaf": {"t": "PS", "phi": gens.gen_cs(rng)}})
+
+    def fperm():
+        n = m if rng.random() < 0.8 else rng.randint(max(2, m - 2), m)
+        return {"off": rng.randint(0, m - n), "leaf": {"t": "PERM", "perm": gen_perm_vec(rng, n)}}
+    ops = gen_simp_flat(rng, m, rng.randint(0, 1), vcount, maxperm=m)
+    ops.append(fperm())
+    ops += mids
+    ops.append(fperm())
+    if rng.random() < 0.3:       # a third permutation: the unravelled circuit is unravelled again
+        ops += gen_simp_flat(rng, m, rng.randint(0, 2), vcount, kinds=MID_KINDS)
+        ops.append(fperm())
+    return {"m": m, "ops": ops, "display": rng.random() < 0.4, "as_list": rng.random() < 0.25}
+
+
 def gen_simp_case(rng, chk):
-    if rng.random() < 0.35:
+    r = rng.random()
+    if r < 0.30:
         return gen_simp_wide(rng, chk)
+    if r < 0.50:
+        return gen_simp_groups(rng, chk)
     m = rng.randint(2, chk.pick(6, 8))
     vcount = [0]
     n_ops = rng.randint(2, chk.pick(12, 20))
@@ -860,6 +905,14 @@ def judge_simplify(chk, case, count=True):
                 chk.branch("simp-" + rep["tag"])
                 if rep["tag"] == "non-successive/unravelled":
                     count_unravel_shape(chk, m, coded[k - 1])
+                if rep.get("exact"):
+                    # the result is the one the exact model of _generate_compatible_perm / _update_perm /
+                    # _search_empty_space gives; `heur`: which paths of the heuristic this call went through
+                    chk.branch("simp-heuristic-exact")
+                    for name in rep.get("heur", []):
+                        chk.branch(name)
+                        if m >= WIDE_MIN:
+                            chk.branch(name + "-wide")
                 if rep.get("fused"):
                     chk.branch("simp-ps-fused")
                 if rep["tag"].startswith("ps/") and coded[k - 1] and any(
@@ -881,6 +934,13 @@ def judge_simplify(chk, case, count=True):
                     f"simplify step {k} (adding {reqs[k - 1]['new']}) changes the circuit matrix by "
                     f"{float(np.max(np.abs(ua - ub))):.3g} (display={display}, model branches {rep.get('tags')})",
                     {"case": case, "step": k})
+        if "spec" in rep and rep["spec"] not in ("not-allowed", "non-successive/INVALID-CHOICE"):
+            # a valid unravelling (matrix unchanged), but not the one the exact model of the heuristic computes
+            return ("broken", "simplify-heuristic-model-vs-code",
+                    f"simplify step {k}: _simplify_perm used the unravelling permutation {rep.get('recovered')} "
+                    f"(accepted by the specification: {rep['spec']}) where the model of _generate_compatible_perm "
+                    f"computes {rep.get('choice')} ({rep.get('tags')}); the matrix is unchanged",
+                    {"case": case, "step": k, "after": coded[k], "cands": rep.get("cands")})
         return ("broken", "simplify-model-vs-code",
                 f"simplify step {k}: result not allowed by the specification (branches {rep.get('tags')}) although "
                 f"the matrix is unchanged", {"case": case, "step": k, "after": coded[k], "cands": rep.get("cands")})
